@@ -170,6 +170,8 @@ def corruptions(lines, sections, model):
                 out.append(['big', L, i])
                 out.append(['neg', L, i, '-5'])
                 out.append(['neg', L, i, '-2.5'])
+            if sec == 'data':
+                out.append(['neg', L, i, '12%'])        # not a number, and a format character for whoever builds the error text
     out.append(['insblank', len(lines)])
     return out
 
